@@ -20,7 +20,7 @@ R-C03-5  (syntax) the unifier's re-insertion is bounded: `Constraints::reinsert`
 """
 import re
 from collections import Counter, defaultdict
-from .common import walk, src, strip, AnchorError, load_table, must_call_blocks, tail_expr
+from .common import walk, src, strip, AnchorError, load_table, must_call_blocks, tail_expr, owner_root
 
 PANIC_CALLS = [
     r"^std::option::Option::<T>::(unwrap|expect)$",
@@ -98,12 +98,30 @@ def is_panic_callee(c):
     return any(r.search(c) for r in _PRX)
 
 
-def census(mir):
-    """-> Counter[(fn, kind)] and first location per key; fn is the enclosing named function for closures"""
+def reviewed_sites(mir, syn, table):
+    """the reviewed table with its keys attributed the way the census attributes sites (common.owner_root); entries that fall together add up"""
+    out = {}
+    for r in table["sites"]:
+        fn_ = r["fn"] if r["fn"] in mir.fns else re.sub(r"(::\{closure#\d+\})+$", "", r["fn"])
+        key = (owner_root(mir, syn, fn_) if syn is not None else r["fn"], r["kind"])
+        if key in out:
+            m = dict(out[key])
+            m["count"] += r["count"]
+            if r["disposition"] == "finding" and m["disposition"] != "finding":
+                m.update({"disposition": "finding", "reason": r["reason"]})
+            out[key] = m
+        else:
+            out[key] = dict(r)
+    return out
+
+
+def census(mir, syn=None):
+    """-> Counter[(fn, kind)] and first location per key; fn is the function the site belongs to: the enclosing named function for
+    closures, the caller for a private helper with a single caller (common.owner_root)"""
     cnt = Counter()
     loc = {}
     for b in mir.fns.values():
-        owner = b.parent if b.kind == "Closure" and b.parent else b.path
+        owner = owner_root(mir, syn, b.path) if syn is not None else (b.parent if b.kind == "Closure" and b.parent else b.path)
         for bb in b.bbs:
             if bb.cleanup:
                 continue
@@ -202,8 +220,8 @@ def run(chk, facts):
     table = load_table("panic_sites.json")
 
     # ---------------- R-C03-1 ----------------
-    reviewed = {(r["fn"], r["kind"]): r for r in table["sites"]}
-    cnt, loc = census(mir)
+    reviewed = reviewed_sites(mir, facts.syn, table)
+    cnt, loc = census(mir, facts.syn)
     total = sum(cnt.values())
     n_auto = 0
     for b in mir.fns.values():
